@@ -971,7 +971,202 @@ def gen_comm(repo):
     return o
 
 
-GENERATORS = [gen_frame, gen_crc, gen_ids, gen_fmt, gen_types, gen_record, gen_recv, gen_comm]
+def _norm(src_):
+    """normalise EXPECTED code through the same parser/unparser as the source (independent of the Python
+    version's unparse style), then collapse whitespace"""
+    import textwrap
+    try:
+        src_ = ast.unparse(ast.parse(textwrap.dedent(src_)))
+    except SyntaxError:
+        pass
+    return re.sub(r"\s+", " ", src_)
+
+
+def gen_cfgshape(repo):
+    """comm.py / nxscope.py: statement shapes of the configuration write path, the setters and the
+    life-cycle / fan-out methods that the hand models (Config, Lifecycle, Fanout) transcribe"""
+    o = Out("CfgShape")
+    t = parse(repo, "comm.py")
+    C = find_class(t, "CommHandler")
+    tn = parse(repo, "nxscope.py")
+    N = find_class(tn, "NxscopeHandler")
+
+    def body(cls, name):
+        f = find_func(cls, name)
+        stmts = [x for x in f.body if not (isinstance(x, ast.Expr) and isinstance(x.value, ast.Constant))]
+        return _norm("\n".join(unparse(x) for x in stmts))
+
+    def write_path(kind):
+        fn = "_nxslib_channels_enable" if kind == "en" else "_nxslib_channels_div"
+        call = "_channel_enable" if kind == "en" else "_channel_div"
+        upd = "en_channels_update" if kind == "en" else "div_channels_update"
+        b = body(C, fn)
+        want = _norm(f"""with self._channels_lock:
+    assert self._channels
+    j = 0
+    k = 0
+    for (i, _) in enumerate(self._channels.{kind}_now):
+        if self._channels.{kind}_new[i] != self._channels.{kind}_now[i]:
+            j += 1
+            k = i
+    if j == 1 and (not self._channels.{kind}_resync):
+        {kind}_req_t = (k, self._channels.{kind}_new[k])
+        ret = self.{call}({kind}_req_t)
+    else:
+        {kind}_req_l = self._channels.{kind}_new
+        ret = self.{call}({kind}_req_l)
+    if ret.state is False:
+        self._channels.{kind}_resync = True
+        return
+    self._channels.{kind}_resync = False
+    self._channels.{kind}_now = copy.deepcopy(self._channels.{kind}_new)
+    assert self.dev
+    self.dev.{upd}(self._channels.{kind}_now)""")
+        if b != want:
+            raise Missing(f"{fn}: diff / single-or-vector / resync / update shape")
+        return "true"
+    o.d("enableWriteShape", "Bool", lambda: write_path("en"),
+        "diff of requested vs acknowledged; single request iff exactly one change and not in doubt; failed ACK sets the doubt flag only; success copies requested -> acknowledged -> device copy; all under the channels lock")
+    o.d("divWriteShape", "Bool", lambda: write_path("div"))
+
+    def channels_write():
+        if body(C, "channels_write") != _norm("""assert self.dev
+if self.dev.data.div_supported:
+    self._nxslib_channels_div()
+self._nxslib_channels_enable()"""):
+            raise Missing("channels_write: divider request only with divider support, then enable request")
+        return "true"
+    o.d("channelsWriteShape", "Bool", channels_write)
+
+    def setter(name, vec, val):
+        want = _norm(f"""with self._channels_lock:
+    assert self._channels
+    if isinstance(chans, list):
+        for chan in chans:
+            self._channels.{vec}[chan] = {val}
+    elif isinstance(chans, int):
+        self._channels.{vec}[chans] = {val}
+    else:
+        raise TypeError""")
+        b = body(C, name)
+        if not b.endswith(want):
+            raise Missing(f"{name}: setter touches only the requested vector under the channels lock")
+        return "true"
+    o.d("enableSetterShape", "Bool", lambda: setter("ch_enable", "en_new", "True"))
+    o.d("disableSetterShape", "Bool", lambda: setter("ch_disable", "en_new", "False"))
+
+    def divider_setter():
+        b = body(C, "ch_divider")
+        if not b.startswith(_norm("if div < 0 or div > 255: raise ValueError assert self.dev")):
+            raise Missing("ch_divider: range check 0..255 and device assertion first")
+        return setter("ch_divider", "div_new", "div")
+    o.d("dividerSetterShape", "Bool", divider_setter)
+
+    def is_enabled():
+        if body(C, "ch_is_enabled") != _norm("with self._channels_lock:\n    assert self._channels\n    return self._channels.en_now[chan]"):
+            raise Missing("ch_is_enabled reads the acknowledged vector under the channels lock")
+        if body(C, "ch_div_get") != _norm("with self._channels_lock:\n    assert self._channels\n    return self._channels.div_now[chan]"):
+            raise Missing("ch_div_get reads the acknowledged vector under the channels lock")
+        return "true"
+    o.d("reportShape", "Bool", is_enabled)
+
+    def channels_init():
+        b = body(C, "_channels_init")
+        if b != _norm("""with self._channels_lock:
+    self._channels = DCommChannelsData(copy.deepcopy(dev.channels_en), copy.deepcopy(dev.channels_en), copy.deepcopy(dev.channels_div), copy.deepcopy(dev.channels_div))"""):
+            raise Missing("_channels_init: all four vectors from the device's reported state")
+        return "true"
+    o.d("channelsInitShape", "Bool", channels_init)
+
+    # nxscope.py life cycle and fan-out
+    def disconnect():
+        if body(N, "disconnect") != _norm("""if self._connected is True:
+    self.stream_stop()
+    self.ch_disable_all(True)
+    self._comm.disconnect()
+    self._connected = False"""):
+            raise Missing("NxscopeHandler.disconnect: stop stream, disable all + write, comm.disconnect, flag")
+        return "true"
+    o.d("disconnectShape", "Bool", disconnect)
+
+    def connect():
+        b = body(N, "connect")
+        want = _norm("""if self._connected is True:
+    logger.info('WARNING: ALREADY CONNECTED!')
+    return self._comm.dev
+logger.info('pintf.py: connect')
+self._comm.connect()
+assert self.dev
+self._sub_q = [[] for _ in range(self.dev.data.chmax)]
+self._connected = True
+return self._comm.dev""")
+        if b != want:
+            raise Missing("NxscopeHandler.connect shape")
+        return "true"
+    o.d("connectShape", "Bool", connect)
+
+    def stream_start_stop():
+        if body(N, "stream_start") != _norm("""if not self._stream_started:
+    self.channels_write()
+    self._stream_start()
+    self._thrd.thread_start()
+    self._stream_started = True"""):
+            raise Missing("stream_start shape")
+        if body(N, "stream_stop") != _norm("""if self._stream_started is True:
+    self._stream_stop()
+    self._thrd.thread_stop()
+    self._stream_started = False"""):
+            raise Missing("stream_stop shape")
+        return "true"
+    o.d("streamStartStopShape", "Bool", stream_start_stop)
+
+    def fanout():
+        b = body(N, "_stream_thread")
+        want_tail = _norm("""for data in sdata.samples:
+        if self._comm.ch_is_enabled(data.chan) is True:
+            samples[data.chan].append(DNxscopeStream(data.data, data.meta))
+    with self._queue_lock:
+        for chan in range(chmax):
+            if len(samples[chan]) > 0:
+                for que in self._sub_q[chan]:
+                    que.put(samples[chan])""")
+        if not b.endswith(want_tail) or "sdata = self._comm.stream_data()" not in b:
+            raise Missing("_stream_thread: group samples of enabled channels, put each group on every queue of its channel under the queue lock")
+        return "true"
+    o.d("fanoutShape", "Bool", fanout)
+
+    def sub_unsub():
+        if body(N, "stream_sub") != _norm("""subq: queue.Queue[list[DNxscopeStream]] = queue.Queue()
+with self._queue_lock:
+    self._sub_q[chan].append(subq)
+return subq"""):
+            raise Missing("stream_sub shape")
+        if body(N, "stream_unsub") != _norm("""with self._queue_lock:
+    for (i, sub) in enumerate(self._sub_q):
+        if subq in sub:
+            self._sub_q[i].remove(subq)"""):
+            raise Missing("stream_unsub shape")
+        return "true"
+    o.d("subUnsubShape", "Bool", sub_unsub)
+
+    def recv_route():
+        b = body(C, "_recv_thread")
+        want = _norm("""frame = self._read_frame()
+if frame:
+    if self._parse.frame_is_stream(frame):
+        self._q_stream.put(frame)
+    elif self.dev is None and self._parse.frame_is_ack(frame):
+        pass
+    else:
+        self._q.put(frame)""")
+        if b != want:
+            raise Missing("_recv_thread routing: stream frames to the stream queue, everything else to the response queue (ACKs dropped before the device is known)")
+        return "true"
+    o.d("recvRouteShape", "Bool", recv_route)
+    return o
+
+
+GENERATORS = [gen_frame, gen_crc, gen_ids, gen_fmt, gen_types, gen_record, gen_recv, gen_comm, gen_cfgshape]
 
 
 def write_if_changed(path, text):
